@@ -351,6 +351,7 @@ class DiskWorld:
         self.disk = SimDisk(self.stats)
         self.pool = init["pool"]            # list of lists of {spec, mode}
         self.acked = {}                     # file name -> expected music | None (unknown: save did not return)
+        self.loaded = {}                    # file name -> (sequences the last judged load returned, expected music)
         self.abstract = []
         self.foreign = None
         self.faults_fired = 0
@@ -365,6 +366,36 @@ class DiskWorld:
             return self._load(ev, name, idx)
         if op == "torn_probe":
             return self._torn(ev, name, idx)
+        if op == "resave":
+            return self._resave(ev, name, idx)
+        return None
+
+    def _resave(self, ev, name, idx):
+        """Second generation: save what the last judged load of `src` returned (sequences that came out of the loader:
+        no cap markers, a default 4/4 message, controllers on the meta sequence) under another name; loading that must
+        give the same music again."""
+        src = ev.get("src", "a")
+        got = self.loaded.get(src)
+        if got is None:
+            self.log.add("resave", name, "skip:nothing-loaded")
+            return None
+        seqs, music_ = got
+        self.disk.next_plan = {"kind": "none", "buf": 8192}
+        self.disk.fired_now = set()
+        try:
+            with self.disk:
+                Sequence.sequences_save(seqs, self.disk.path(name))
+        except core.RunTimeout:
+            raise
+        except Exception as e:
+            _release_frames(e)
+            v = Violation("SAVE-RAISED", f"saving the sequences a load had returned raised {type(e).__name__}: {e}",
+                          {"op": "resave", "kind": "raised-without-fault"}, idx)
+            self.log.add("resave", name, "viol", v.cls)
+            return v
+        self.acked[name] = {"music": music_, "hard_fault_during_save": []}
+        self.stats["reach_save/resave_of_loaded_sequences"] += 1
+        self.log.add("resave", name, "ack")
         return None
 
     def _save(self, ev, name, idx):
@@ -520,6 +551,7 @@ class DiskWorld:
             return v
         if hard:
             self.stats["reach_load/returned_right_music_despite_read_fault"] += 1
+        self.loaded[name] = (seqs, ack["music"])
         self.log.add("load", name, "ok", sorted(fired), core.digest_of(got))
         return None
 
@@ -633,6 +665,8 @@ def c12_run_one(seed, tier, index):
                   "via": rng.choice(["save", "sequences_save", "sequences_save", "composition"]), "pathlib": rng.random() < 0.2}
         elif rng.random() < 0.08 and lane == "fault":
             ev = {"op": "torn_probe", "name": rng.choice(have), "cut": rng.randrange(1, 4096)}
+        elif world.loaded and rng.random() < 0.2:
+            ev = {"op": "resave", "src": rng.choice(sorted(world.loaded)), "name": rng.choice(names)}
         else:
             ev = {"op": "load", "name": rng.choice(have), "pathlib": rng.random() < 0.2,
                   "plan": {"kind": "none", "buf": 8192} if lane == "baseline" else gen_plan(rng, "r", size_hint)}
@@ -1197,6 +1231,7 @@ class LoadWorld:
         data = write_smf_mido(f["tpb"], f["tracks"]) if f["writer"] == "mido" else write_smf_raw(f["tpb"], f["tracks"])
         self.disk.write_bytes("in", data)
         self.size = len(data)
+        self.parsed = None
         self.stats[f"reach_writer/{f['writer']}"] += 1
         self.stats[f"reach_tpb/{f['tpb']}"] += 1
 
@@ -1207,12 +1242,28 @@ class LoadWorld:
         self.disk.fired_now = set()
         exc = None
         seqs = None
+        route = ev.get("route", "path")
+        ti = [list(g) for g in f["groups"]] if f["groups"] is not None else None
+        mi = list(f["meta"]) if f["meta"] is not None else None
         try:
             with self.disk:
-                seqs = Sequence.sequences_load(file_path=self.disk.path("in"),
-                                               track_indices=[list(g) for g in f["groups"]] if f["groups"] is not None else None,
-                                               meta_track_indices=list(f["meta"]) if f["meta"] is not None else None,
-                                               target_meta_track_index=f["target"])
+                if route == "midi_file":
+                    # parse once, convert through sequences_load(midi_file=...) - possibly a second time on the same object
+                    if self.parsed is None:
+                        from scoda.midi.midi_file import MidiFile
+                        self.parsed = MidiFile.open(self.disk.path("in"))
+                    seqs = Sequence.sequences_load(midi_file=self.parsed, track_indices=ti, meta_track_indices=mi,
+                                                   target_meta_track_index=f["target"])
+                elif route == "convert" and ti is not None and mi is not None:
+                    from scoda.midi.midi_file import MidiFile
+                    if self.parsed is None:
+                        self.parsed = MidiFile.open(self.disk.path("in"))
+                    seqs = self.parsed.convert(ti, mi, f["target"])
+                elif route == "positional":
+                    seqs = Sequence.sequences_load(self.disk.path("in"), None, ti, mi, f["target"])
+                else:
+                    seqs = Sequence.sequences_load(file_path=self.disk.path("in"), track_indices=ti, meta_track_indices=mi,
+                                                   target_meta_track_index=f["target"])
         except core.RunTimeout:
             raise
         except Exception as e:
@@ -1221,7 +1272,8 @@ class LoadWorld:
         fired = set(self.disk.fired_now)
         hard = "read_eio" in fired
         self.faults_fired += len(fired)
-        self.abstract.append(zlib.crc32(f"load|{plan.get('kind', 'none')}|{sorted(fired)}|{exc is None}|{f['tpb']}|{f['writer']}".encode()))
+        self.stats[f"reach_route/{route}"] += 1
+        self.abstract.append(zlib.crc32(f"load|{route}|{plan.get('kind', 'none')}|{sorted(fired)}|{exc is None}|{f['tpb']}|{f['writer']}".encode()))
         if plan.get("kind", "none") == "eio" and not hard:
             self.stats["fault_not_fired/read_eio"] += 1
         if exc is not None:
@@ -1283,7 +1335,8 @@ def c13_run_one(seed, tier, index):
     events = []
     viol = None
     for _ in range(1 if lane in ("baseline", "neartie") else rng.choice([1, 2, 3])):
-        ev = {"op": "load", "plan": {"kind": "none", "buf": 8192} if lane in ("baseline", "neartie") else gen_plan(rng, "r", world.size)}
+        ev = {"op": "load", "plan": {"kind": "none", "buf": 8192} if lane in ("baseline", "neartie") else gen_plan(rng, "r", world.size),
+              "route": rng.choice(["path", "path", "path", "midi_file", "midi_file", "convert", "positional"])}
         events.append(ev)
         viol = world.apply(ev, len(events) - 1)
         if viol is not None or world.foreign:
